@@ -1,9 +1,149 @@
 import NetVerif.Model.SendWin
 import NetVerif.Proofs.Lemmas.Flow
-/-! C08 proofs (work in progress). -/
-namespace NetVerif.Proofs.C08
-open NetVerif.Model.SendWin
+import NetVerif.Proofs.Lemmas.SendWin
+import NetVerif.Proofs.Lemmas.SendWinRefine
+/-!
+C08 — the HTTP/2 server never sends DATA beyond the client's flow-control windows; pending data is
+sent when a window reopens.  (C09, the client side, reuses everything here with `Role.client`.)
 
-theorem init_ok : TraceOK Ledger.init [] := trivial
+* (i)   `monitor_sound` / `monitor_complete`: the monitor run on recorded wire traces accepts a trace
+        iff every DATA frame, at the moment it is sent, keeps Σ DATA ≤ credit on its stream (initial window
+        at open + SETTINGS deltas + WINDOW_UPDATEs) and on the connection (65535 + WINDOW_UPDATEs), is no
+        larger than the current SETTINGS_MAX_FRAME_SIZE, and is on an open stream (`TraceOK`).
+        `data_within_credit` spells the consequence out for any position of a trace.
+* (ii)  `mechanism_refines`: for every history of peer frames (windows driven negative by SETTINGS,
+        overflowing / zero WINDOW_UPDATEs, invalid SETTINGS included), application writes and scheduler
+        choices, the trace produced by the mechanism model (outflow add/take with the conn link and int32
+        wrap-around, Consume / awaitFlowControl, processSetting*, processWindowUpdate, newStream) satisfies
+        `TraceOK`.
+* (iii) `consume_progress` / `consume_none_iff`: on the model, a queued non-empty DATA frame on a stream
+        whose `available()` is positive always yields a non-empty piece (`min(len, available, limit,
+        maxFrame)` bytes), and `Consume` refuses only when that minimum is ≤ 0.
+-/
+namespace NetVerif.Proofs.C08
+open NetVerif.Model.SendWin NetVerif.Model.Flow NetVerif.Proofs.SendWin NetVerif.Proofs.Flow
+
+/-! ### (i) the monitor decides the property -/
+
+/-- Every trace the monitor accepts satisfies the property. -/
+theorem monitor_sound (tr : List Ev) (m : Mon) (h : Mon.init.run tr = .ok m) : TraceOK Ledger.init tr :=
+  run_sound tr rel_init h
+
+/-- Ledger after a prefix. -/
+def ledgerAfter (L : Ledger) : List Ev → Ledger
+  | [] => L
+  | e :: t => ledgerAfter (L.step e) t
+
+theorem traceOK_at (L : Ledger) (pre : List Ev) (e : Ev) (post : List Ev) (h : TraceOK L (pre ++ e :: post)) :
+    (ledgerAfter L pre).Sat e := by
+  induction pre generalizing L with
+  | nil => exact h.1
+  | cons x t ih => exact ih (L.step x) h.2
+
+/-- The statement of C08/C09 at an arbitrary position of an accepted trace: when the endpoint writes a DATA
+frame of `len > 0` bytes on stream `sid`, the stream is open and, with `c`/`s` the credit granted to and the
+payload already sent on that stream, `s + len ≤ c`; the same holds for the connection totals; and the frame
+is no larger than the peer's current SETTINGS_MAX_FRAME_SIZE. -/
+theorem data_within_credit (pre post : List Ev) (sid len : Nat) (fin : Bool) (m : Mon)
+    (h : Mon.init.run (pre ++ .data sid len fin :: post) = .ok m) :
+    let L := ledgerAfter Ledger.init pre
+    (len : Int) ≤ L.maxFrame ∧
+    ∃ c s, tget L.credit sid = some c ∧ tget L.sent sid = some s ∧
+      (0 < len → s + len ≤ c ∧ L.connSent + len ≤ L.connCredit) :=
+  traceOK_at Ledger.init pre _ post (monitor_sound _ m h)
+
+/-! ### (ii) the send mechanism refines the monitor -/
+
+/-- Every trace of the mechanism model is accepted by the monitor — server and client role, all histories. -/
+theorem mechanism_accepted (r : Role) (acts : List Act) :
+    ∃ m, Mon.init.run (Send.init.run r acts).2 = .ok m :=
+  let ⟨m, e, _⟩ := run_sim r acts inv_init
+  ⟨m, e⟩
+
+/-- ... and therefore satisfies the property. -/
+theorem mechanism_refines (r : Role) (acts : List Act) : TraceOK Ledger.init (Send.init.run r acts).2 :=
+  let ⟨m, e⟩ := mechanism_accepted r acts
+  monitor_sound _ m e
+
+/-- The endpoint's own counters never exceed the peer's view, along every history (the simulation
+relation itself, exported: `Inv` bounds `conn` and every stream counter by the monitor's windows). -/
+theorem counters_below_peer_view (r : Role) (acts : List Act) :
+    ∃ m, Mon.init.run (Send.init.run r acts).2 = .ok m ∧ Inv (Send.init.run r acts).1 m :=
+  run_sim r acts inv_init
+
+/-! ### (iii) progress on the model -/
+
+/-- `Consume` on an open stream refuses exactly when the frame is non-empty and
+`min(available, limit, maxFrameSize) ≤ 0`. -/
+theorem consume_none_iff (s : Send) (sid len : Nat) (limit a : Int) (h7 : IsInt32 s.conn) (ha : IsInt32 a)
+    (ea : tget s.wins sid = some a) :
+    s.consume sid len limit = none ↔
+      0 < len ∧ (min (min (s.flow a).available limit) s.maxFrame ≤ 0) := by
+  unfold Send.consume
+  simp only [ea]
+  by_cases hl : len = 0
+  · simp [hl]
+  · simp only [hl, if_false]
+    generalize hal : (if s.maxFrame < (if limit < (s.flow a).available then limit else (s.flow a).available)
+        then s.maxFrame else (if limit < (s.flow a).available then limit else (s.flow a).available)) = allowed
+    have hbnd : allowed = min (min (s.flow a).available limit) s.maxFrame := by
+      subst hal; simp only [Int.min_def]; split <;> split <;> (try split) <;> omega
+    by_cases hz : allowed ≤ 0
+    · simp only [hz, if_true, true_iff]; exact ⟨by omega, by omega⟩
+    · simp only [hz, if_false]
+      have hav : allowed ≤ (s.flow a).available := by rw [hbnd]; simp only [Int.min_def]; split <;> split <;> omega
+      by_cases hgt : (len : Int) > allowed
+      · simp only [hgt, if_true]
+        rw [take_some h7 sid a allowed ha (by omega) hav]
+        simp; omega
+      · simp only [hgt, if_false]
+        rw [take_some h7 sid a len ha (by omega) (by omega)]
+        simp; omega
+
+/-- **Progress**: a queued non-empty DATA frame on a stream whose window (`available()`: min of the stream and
+connection counters) is positive always yields a non-empty piece — of exactly
+`min(len, available, limit, maxFrameSize)` bytes — and that amount is deducted from both counters. -/
+theorem consume_progress (s : Send) (sid len : Nat) (limit a : Int) (h7 : IsInt32 s.conn) (ha : IsInt32 a)
+    (ea : tget s.wins sid = some a) (hlen : 0 < len) (hav : 0 < (s.flow a).available) (hlim : 0 < limit)
+    (hmf : 0 < s.maxFrame) :
+    ∃ n s', s.consume sid len limit = some (n, s') ∧ 0 < n ∧
+      (n : Int) = min (len : Int) (min (min (s.flow a).available limit) s.maxFrame) ∧
+      s'.conn = s.conn - n ∧ tget s'.wins sid = some (a - n) := by
+  cases hc : s.consume sid len limit with
+  | none =>
+    have := (consume_none_iff s sid len limit a h7 ha ea).1 hc
+    simp only [Int.min_def] at this
+    exfalso
+    have h2 := this.2
+    split at h2 <;> split at h2 <;> omega
+  | some p =>
+    obtain ⟨n, s'⟩ := p
+    have tk := consume_took sid len limit a n h7 ha (by omega) ea hc
+    refine ⟨n, s', rfl, ?_, ?_, tk.1.conn, by simpa using tk.1.wins sid⟩
+    all_goals
+      unfold Send.consume at hc
+      simp only [ea] at hc
+      have hl : ¬ len = 0 := by omega
+      simp only [hl, if_false] at hc
+      generalize hal : (if s.maxFrame < (if limit < (s.flow a).available then limit else (s.flow a).available)
+          then s.maxFrame else (if limit < (s.flow a).available then limit else (s.flow a).available)) = allowed at hc
+      have hbnd : allowed = min (min (s.flow a).available limit) s.maxFrame := by
+        subst hal; simp only [Int.min_def]; split <;> split <;> (try split) <;> omega
+      have hpos : 0 < allowed := by rw [hbnd]; simp only [Int.min_def]; split <;> split <;> omega
+      have hav' : allowed ≤ (s.flow a).available := by rw [hbnd]; simp only [Int.min_def]; split <;> split <;> omega
+      have hz : ¬ allowed ≤ 0 := by omega
+      simp only [hz, if_false] at hc
+      by_cases hgt : (len : Int) > allowed
+      · simp only [hgt, if_true] at hc
+        rw [take_some h7 sid a allowed ha (by omega) hav'] at hc
+        simp only [Option.map_some, Option.some.injEq, Prod.mk.injEq] at hc
+        have e : ((allowed.toNat : Nat) : Int) = allowed := Int.toNat_of_nonneg (by omega)
+        have hn : (n : Int) = allowed := by rw [← hc.1]; exact e
+        first | omega | (rw [← hbnd]; simp only [Int.min_def]; split <;> omega)
+      · simp only [hgt, if_false] at hc
+        rw [take_some h7 sid a len ha (by omega) (by omega)] at hc
+        simp only [Option.map_some, Option.some.injEq, Prod.mk.injEq] at hc
+        have hn : (n : Int) = len := by rw [← hc.1]
+        first | omega | (rw [← hbnd]; simp only [Int.min_def]; split <;> omega)
 
 end NetVerif.Proofs.C08
